@@ -21,20 +21,21 @@ type loopInfo struct {
 }
 
 type fnExec struct {
-	v        *Verifier
-	fn       *ssa.Function
-	c        *FuncContract
-	pkg      *types.Package
-	loops    map[*ssa.BasicBlock]*loopInfo
-	params   map[string]Term // contract-visible names of parameters (and free variables)
-	results  []string        // result names
-	allLocals map[string]types.Type // every source-level local of the function (for zero values on paths that skip a declaration)
-	siteOrd  map[ssa.Instruction]int
-	steps    int
-	maxPaths int
-	paths    int
-	aborted  string
-	entryAlloc string
+	v             *Verifier
+	fn            *ssa.Function
+	c             *FuncContract
+	pkg           *types.Package
+	loops         map[*ssa.BasicBlock]*loopInfo
+	params        map[string]Term // contract-visible names of parameters (and free variables)
+	results       []string        // result names
+	allPropsCache []string
+	allLocals     map[string]types.Type // every source-level local of the function (for zero values on paths that skip a declaration)
+	siteOrd       map[ssa.Instruction]int
+	steps         int
+	maxPaths      int
+	paths         int
+	aborted       string
+	entryAlloc    string
 }
 
 const maxStepsPerFunc = 200000
@@ -425,6 +426,12 @@ func (x *fnExec) assumeRequires(st *State) {
 func (x *fnExec) emit(st *State, name, kind, label string, props []string, goal, clause string) *Obligation {
 	if len(props) == 0 {
 		props = x.c.Props
+		// supporting obligations (loop invariants, callee preconditions, frames) carry every clause of the function: they
+		// belong to every property that some clause of this function is tagged with
+		switch kind {
+		case "inv-init", "inv-pres", "invariant", "call-pre", "frame", "autoframe", "step":
+			props = x.allProps()
+		}
 	}
 	var rargs map[string][]Term
 	var rassume []string
@@ -1647,4 +1654,30 @@ func (x *fnExec) scanDeterministic(fn *ssa.Function, depth int) []string {
 		}
 	}
 	return problems
+}
+
+// allProps: the function's properties plus every property some clause of its contract is tagged with.
+func (x *fnExec) allProps() []string {
+	if x.allPropsCache != nil {
+		return x.allPropsCache
+	}
+	seen := map[string]bool{}
+	var out []string
+	add := func(ps []string) {
+		for _, p := range ps {
+			if !seen[p] {
+				seen[p] = true
+				out = append(out, p)
+			}
+		}
+	}
+	add(x.c.Props)
+	for _, cl := range [][]*Clause{x.c.Requires, x.c.Ensures, x.c.Assumes, x.c.Invariants, x.c.Steps, x.c.Effects, x.c.AtCall, x.c.AtGo, x.c.AtSend, x.c.AtReturn} {
+		for _, c := range cl {
+			add(c.Props)
+		}
+	}
+	sort.Strings(out)
+	x.allPropsCache = out
+	return out
 }
